@@ -128,7 +128,8 @@ def run(scr, tier, replay_file):
                 exhaustive = False
                 core = [s for s in scs if fam.is_core(s)]
                 random.Random(vlib.seed() * 7919 + len(scs)).shuffle(core)
-                scs = vlib.sample(scs, quota, rng, core=core[:quota // 4])
+                pin = fam.pins(scs)
+                scs = vlib.sample(scs, quota, rng, core=pin + [s for s in core[:quota // 4] if s not in pin])
             scenarios += scs
     # 3. replay on the real code
     t0 = time.time()
